@@ -25,4 +25,17 @@ def configure():
     d = os.path.join(OUT_DIR, "numba", h.hexdigest()[:16])
     os.makedirs(d, exist_ok=True)
     os.environ["NUMBA_CACHE_DIR"] = d
+    if root != "/repo":
+        # remember which scratch root a cache belongs to, so that the self-tests can delete it afterwards
+        import json
+        marker = os.path.join(OUT_DIR, "numba", "roots.json")
+        try:
+            roots = json.load(open(marker))
+        except Exception:
+            roots = {}
+        roots[os.path.basename(d)] = root
+        try:
+            json.dump(roots, open(marker, "w"))
+        except OSError:
+            pass
     return d
